@@ -31,7 +31,9 @@ view == <<st, n>>
 Informational(c) == c >= 100 /\ c <= 199 /\ c # 101
 Final(c) == ~Informational(c)
 
-S0 == [status |-> 200, size |-> -1, hij |-> FALSE, hdrs |-> <<>>, body |-> 0]
+\* ct: what the Content-Type response header holds: "none", "pre" (set by earlier code), "text" (String's
+\* default), "given" (the type passed to Blob / Stream)
+S0 == [status |-> 200, size |-> -1, hij |-> FALSE, hdrs |-> <<>>, body |-> 0, ct |-> "none"]
 
 HasFinal(s) == \E i \in DOMAIN s.hdrs : Final(s.hdrs[i])
 Min(a, b) == IF a < b THEN a ELSE b
@@ -65,10 +67,13 @@ DoReadFrom(s, m, f, j) ==
        IN R([s1 EXCEPT !.body = @ + a, !.size = @ + a],
             <<a, IF a < f THEN "short" ELSE IF f < m THEN "srcerr" ELSE "ok">>)
 
-DoFlush(s) ==
+\* the pending header is forwarded before the flush is delegated; whether the flush then succeeds does not
+\* change what was forwarded
+DoFlush(s, fails) ==
   IF "flusher" \notin Caps THEN R(s, "notsupported")
-  ELSE IF s.size < 0 /\ ~s.hij THEN R([s EXCEPT !.hdrs = Append(@, s.status), !.size = 0], "ok")
-  ELSE R(s, "ok")
+  ELSE LET ret == IF fails /\ "flusherror" \in Caps THEN "flusherr" ELSE "ok" IN
+       IF s.size < 0 /\ ~s.hij THEN R([s EXCEPT !.hdrs = Append(@, s.status), !.size = 0], ret)
+       ELSE R(s, ret)
 
 DoHijack(s) ==
   IF "hijacker" \notin Caps THEN R(s, "notsupported") ELSE R([s EXCEPT !.hij = TRUE], "ok")
@@ -76,8 +81,10 @@ DoHijack(s) ==
 DoCap(s, cap) == R(s, IF cap \in Caps THEN "ok" ELSE "notsupported")
 
 \* Context helpers as compositions
-DoString(s, c, nb) == LET a == DoWriteHeader(s, c) IN DoWrite(a.s, nb, nb)
-DoStream(s, c, m)  == LET a == DoWriteHeader(s, c) IN DoReadFrom(a.s, m, m, m)
+\* String keeps a content type that is already set, Blob and Stream send the one they are given
+DoString(s, c, nb) == LET a == DoWriteHeader([s EXCEPT !.ct = IF @ = "none" THEN "text" ELSE @], c) IN DoWrite(a.s, nb, nb)
+DoBlob(s, c, nb)   == LET a == DoWriteHeader([s EXCEPT !.ct = "given"], c) IN DoWrite(a.s, nb, nb)
+DoStream(s, c, m)  == LET a == DoWriteHeader([s EXCEPT !.ct = "given"], c) IN DoReadFrom(a.s, m, m, m)
 DoRedirect(s, c, hasBody, nb) ==
   IF c < 300 \/ c > 308 THEN R(s, "invalidcode")
   ELSE LET a == DoWriteHeader(s, c) IN IF hasBody THEN R(DoWrite(a.s, nb, nb).s, "ok") ELSE R(a.s, "ok")
@@ -91,13 +98,14 @@ WriteHeader(c)     == Step(DoWriteHeader(st, c), "WriteHeader", <<c>>)
 Write(w)           == Step(DoWrite(st, w[1], w[2]), "Write", w)
 WriteString(w)     == Step(DoWrite(st, w[1], w[2]), "WriteString", w)
 ReadFrom(rf)       == ~st.hij /\ Step(DoReadFrom(st, rf[1], rf[2], rf[3]), "ReadFrom", rf)
-Flush              == Step(DoFlush(st), "Flush", <<>>)
+Flush(fails)       == Step(DoFlush(st, fails), "Flush", <<IF fails THEN 1 ELSE 0>>)
+SetCT              == st.ct = "none" /\ Step(R([st EXCEPT !.ct = "pre"], "ok"), "SetContentType", <<>>)
 Hijack             == Step(DoHijack(st), "Hijack", <<>>)
 Cap(cap)           == Step(DoCap(st, cap), cap, <<>>)
 
 \* Context helpers (the request is a POST, for which http.Redirect sends the header only)
 HString(c)   == ~st.hij /\ Step(DoString(st, c, 4), "String", <<c, 4>>)
-HBlob(c)     == ~st.hij /\ Step(DoString(st, c, 4), "Blob", <<c, 4>>)
+HBlob(c)     == ~st.hij /\ Step(DoBlob(st, c, 4), "Blob", <<c, 4>>)
 HStream(c)   == ~st.hij /\ Step(DoStream(st, c, 5), "Stream", <<c, 5>>)
 HRedirect(c) == ~st.hij /\ Step(DoRedirect(st, c, FALSE, 0), "Redirect", <<c>>)
 
@@ -106,7 +114,8 @@ Next ==
   \/ \E c \in Codes : WriteHeader(c)
   \/ \E w \in WriteSizes : Write(w) \/ WriteString(w)
   \/ \E rf \in ReadFroms : ReadFrom(rf)
-  \/ Flush \/ Hijack
+  \/ Flush(FALSE) \/ Flush(TRUE) \/ Hijack
+  \/ (HelperCodes # {} /\ SetCT)
   \/ \E cap \in {"pusher", "deadlines", "duplex"} : Cap(cap)
 
 Spec == Init /\ [][Next]_vars
